@@ -1,7 +1,7 @@
 (* C04 - Every accepted burn message mints exactly what it says, once. *)
 From Cctp Require Import Lib.Bytes Lib.SMap Lib.Text Lib.Bech32.
 From Cctp Require Import Model.Codec Model.State Model.Attest Model.Ledger Model.Handlers Model.Chain.
-From Cctp Require Import Proofs.MonadFacts Proofs.FlowFacts Proofs.CallFacts Proofs.MoneyFacts Proofs.HistoryFacts.
+From Cctp Require Import Proofs.MonadFacts Proofs.FlowFacts Proofs.CallFacts Proofs.MoneyFacts Proofs.HistoryFacts Proofs.LedgerFacts.
 
 (* A successful receive of a message addressed to the CCTP module makes exactly one dependency call:
    a mint, requested in the module's own name, of the 256-bit big-endian amount at bytes 68..100 of the
@@ -32,6 +32,21 @@ Proof.
   destruct H as (b&p&to&B1&B2&B3&B4&B5&B6). unfold decode_burn in B1.
   destruct (Nat.eqb_spec (length (m_body m)) 132) as [L|]; [|discriminate]. cbn [negb] in B1. injection B1 as <-.
   cbn [bm_token bm_recipient bm_amount] in *. exists p, to. auto 10.
+Qed.
+
+(* The ledger after a successful module-addressed receive: the account denoted by the recipient address gains
+   exactly the stated amount of the linked denom; every other balance is unchanged. *)
+Theorem C04_only_the_recipient_is_credited : forall e c plan from msg att m,
+  is_ok (deliver e c plan (ReceiveMessage from msg att)) = true -> decode_message msg = Some m -> to_module e m = true ->
+  exists p to, lookup (pair_key (m_src m) (slice 4 36 (m_body m))) (pairs (c_st c)) = Some p /\
+    bech32_of e (skipn 12 (slice 36 68 (m_body m))) = Some to /\
+    forall a, acc_address (hrp e) to = Some a ->
+      forall x d, balance (c_lg (r_chain (deliver e c plan (ReceiveMessage from msg att)))) x d =
+                  (balance (c_lg c) x d + if same_acct a (to_lower (tp_local p)) x d then Z.of_N (be_dec (slice 68 100 (m_body m))) else 0)%Z.
+Proof.
+  intros e c plan from msg att m O D T. destruct (C04_mint_request_exact e c plan from msg att O) as (m'&D'&H).
+  assert (m' = m) by congruence. subst m'. cbv zeta in H. rewrite T in H. destruct H as (p&to&_&P&B&_&_&Lg).
+  exists p, to. split; [exact P|]. split; [exact B|]. intros a A x d. rewrite Lg. now apply mint_ledger.
 Qed.
 
 (* the amount is a full unsigned 256-bit value *)
@@ -104,6 +119,7 @@ Theorem C04_total_minted : forall e h c, total_minted e c h = total_stated e c h
 Proof. intros e h. induction h as [|s h IH]; intros c; cbn; auto. now rewrite C04_step_minted, IH. Qed.
 
 Print Assumptions C04_mint_request_exact.
+Print Assumptions C04_only_the_recipient_is_credited.
 Print Assumptions C04_amount_range.
 Print Assumptions C04_no_other_mint.
 Print Assumptions C04_failed_transactions_mint_nothing.
